@@ -199,6 +199,18 @@ class MHLHistory:
 
         return all_paths
 
+    def set_of_expected_file_paths(self) -> Set[str]:
+        """the paths that are expected to exist now: all recorded paths, with the renames of every
+        generation applied in order (a path can be renamed again in a later generation)"""
+        all_paths = set()
+        for hash_list in self.hash_lists:
+            renamed_paths = hash_list.renamed_path_with_previous_path(self.get_root_path())
+            all_paths.difference_update(renamed_paths.keys())
+            all_paths.update(hash_list.set_of_file_paths(self.get_root_path()))
+        for child_history in self.child_histories:
+            all_paths.update(child_history.set_of_expected_file_paths())
+        return all_paths
+
     def renamed_path_with_previous_path(self):
         all_paths = {}
         for hash_list in self.hash_lists:
